@@ -731,6 +731,9 @@ func (i *importer) importMuxSignal(dbcMuxSig *dbc.Signal, dbcMsgID uint32, muxed
 		groupIDs := []int{}
 		dbcExtMux, ok := i.dbcExtMuxes[i.getSignalKey(dbcMsgID, tmpSig.Name())]
 		if ok {
+			// overlapping ranges name a group only once, the expansion
+			// never holds more ids than the multiplexer has groups
+			seenGroupIDs := make([]bool, muxSig.groupCount)
 			for _, valRange := range dbcExtMux.Ranges {
 				for j := valRange.From; j <= valRange.To; j++ {
 					// stop at the first group id the multiplexer cannot hold,
@@ -738,6 +741,10 @@ func (i *importer) importMuxSignal(dbcMuxSig *dbc.Signal, dbcMsgID uint32, muxed
 					if int(j) >= muxSig.groupCount {
 						return nil, i.errorf(valRange, &GroupIDError{GroupID: int(j), Err: ErrOutOfBounds})
 					}
+					if seenGroupIDs[j] {
+						continue
+					}
+					seenGroupIDs[j] = true
 					groupIDs = append(groupIDs, int(j))
 				}
 			}
